@@ -190,6 +190,28 @@ impl Poly1305 {
     }
 }
 
+/// Verification hooks, compiled only with `--cfg cryptoxide_verif`: build a context from explicit
+/// limb values and read the accumulator back, so that the limb kernels can be driven on rare states.
+#[cfg(cryptoxide_verif)]
+impl Poly1305 {
+    /// context with the given `r`, `h` limbs and `pad` words, empty buffer
+    pub fn verif_from_state(r: [u32; 5], h: [u32; 5], pad: [u32; 4]) -> Self {
+        Poly1305 {
+            r,
+            h,
+            pad,
+            leftover: 0,
+            buffer: [0u8; 16],
+            finalized: false,
+        }
+    }
+
+    /// the accumulator limbs
+    pub fn verif_h(&self) -> [u32; 5] {
+        self.h
+    }
+}
+
 impl Mac for Poly1305 {
     fn input(&mut self, data: &[u8]) {
         assert!(!self.finalized);
